@@ -41,6 +41,22 @@ def run(ctx):
                  sample={"rule": "ERR-prop", "fn": "start", "call": "validate_config_database"})
             opens = [c for c in sf.calls() if not sf.is_cleanup(c.bb) and c.target_path and
                      (c.target_path.endswith("Brc20ProgDatabase::new") or c.target_path.endswith("start_rpc_server") or c.target_path.endswith("BRC20ProgEngine::new"))]
+            # the tail of start() may live in a private async helper it awaits (`serve(engine, config).await`): what the helper
+            # opens is opened at the await
+            class _At:
+                def __init__(self, call, bb, where):
+                    self.target_path, self.bb, self._w = call.target_path, bb, where
+                def where(self):
+                    return self._w
+            try:
+                from c16 import _awaited_private
+                for (pc, hv) in _awaited_private(F, sf):
+                    for c in hv.calls():
+                        if not hv.is_cleanup(c.bb) and c.target_path and (c.target_path.endswith("Brc20ProgDatabase::new") or c.target_path.endswith("start_rpc_server")
+                                                                         or c.target_path.endswith("BRC20ProgEngine::new")):
+                            opens.append(_At(c, pc.bb, c.where()))
+            except ImportError:
+                pass
             R.floor("start_open_calls", len(opens), 3)
             for o in opens:
                 R.ob(sf.sdominates(gate.bb, o.bb) and gate.bb != o.bb, "DOM-before", o.where(), "DOM-before|start|gate<%s" % o.target_path.split("::")[-2],
@@ -177,7 +193,34 @@ def run(ctx):
             R.ob(ok, "WIRE", c.where(), "WIRE|config|%s:%s" % (kind, k), "%s(%s) uses value `%s`; expected the %s setting" % (kind, k, txt, KEYS.get(k)),
                  sample={"rule": "WIRE", "op": kind, "key": k, "value": txt})
             R.ob(err_propagated(v, c), "ERR-prop", c.where(), "ERR-prop|config|%s:%s" % (kind, k), "the Result of %s(%s) is dropped" % (kind, k))
-    # fresh vs reopen branch: sets and validates are on opposite edges of the freshness switch
+    # fresh vs reopen, by abstract execution (independent of whether the two cases are one if/else or a per-key
+    # `record_or_validate(fresh, ..)` helper read in place): with the directory empty every write and the flush are reached and
+    # no validation; with it non-empty every validation and no write, no flush; on a fresh run no successful return avoids the flush
+    from terms import explore_under as _xu
+    fl0 = [c for c in v.calls() if (c.method or "") == "flush" and not v.is_cleanup(c.bb)]
+
+    def _dir_env(nonempty):
+        def env_of(t):
+            if t[0] == "call" and t[1].split("::")[-1] in ("is_some", "is_none") and t[2] and mentions(t[2][0], "read_dir"):
+                return nonempty == (t[1].split("::")[-1] == "is_some")
+            return None
+        return env_of
+    _o1, vis_fresh = _xu(v, _dir_env(False), limit=20000)
+    _o2, vis_reopen = _xu(v, _dir_env(True), limit=20000)
+    ret_noflush, _v3 = _xu(v, _dir_env(False), limit=20000, avoid=set(v.error_blocks()) | {c.bb for c in fl0})
+    fresh_ok = bool(sets) and all(c.bb in vis_fresh for c in sets) and not any(c.bb in vis_fresh for c in vals) and any(c.bb in vis_fresh for c in fl0)
+    reopen_ok = bool(vals) and all(c.bb in vis_reopen for c in vals) and not any(c.bb in vis_reopen for c in sets) and not any(c.bb in vis_reopen for c in fl0)
+    flush_ok = bool(fl0) and not ret_noflush and not any(sc.bb in v.reachable(f_.bb) for f_ in fl0 for sc in sets if sc.bb != f_.bb)
+    R.ob(fresh_ok, "GUARD", v.where(), "GUARD|config|model:fresh", "with the directory empty: writes reached %s, validations reached %s, flush reached %s" % (
+        [c.bb in vis_fresh for c in sets], [c.bb in vis_fresh for c in vals], [c.bb in vis_fresh for c in fl0]),
+        sample={"rule": "GUARD (abstract execution)", "scenario": "empty directory", "writes": len(sets), "validations_reached": 0})
+    R.ob(reopen_ok, "GUARD", v.where(), "GUARD|config|model:reopen", "with the directory non-empty: validations reached %s, writes reached %s, flush reached %s" % (
+        [c.bb in vis_reopen for c in vals], [c.bb in vis_reopen for c in sets], [c.bb in vis_reopen for c in fl0]),
+        sample={"rule": "GUARD (abstract execution)", "scenario": "non-empty directory", "validations": len(vals), "writes_reached": 0})
+    R.ob(flush_ok, "DOM-order", v.where(), "DOM-order|config|model:flush", "on a fresh run a successful return is reachable without the flush (or a write follows it)",
+         sample={"rule": "DOM-order (abstract execution)", "scenario": "empty directory", "ok_return_avoiding_flush": bool(ret_noflush)})
+    model2_ok = fresh_ok and reopen_ok and flush_ok
+    # the same, read off the CFG when the two cases are the two edges of one freshness switch (fast path, adds the samples)
     fresh_sw = None
     for b in range(len(v.blocks)):
         t = v.term(b)
@@ -197,19 +240,19 @@ def run(ctx):
             # term is `is_some(next(read_dir))`: truth False == fresh
             fresh = (truth is False) if mentions(term, "is_some") else None
             if fresh is True:
-                R.ob(has_sets and not has_vals, "GUARD", v.where(), "GUARD|config|fresh-branch", "an empty directory must record (not validate) the configuration",
+                R.ob((has_sets and not has_vals) or model2_ok, "GUARD", v.where(), "GUARD|config|fresh-branch", "an empty directory must record (not validate) the configuration",
                      sample={"rule": "GUARD", "branch": "fresh", "sets": has_sets, "validates": has_vals})
             elif fresh is False:
-                R.ob(has_vals and not has_sets, "GUARD", v.where(), "GUARD|config|reopen-branch",
+                R.ob((has_vals and not has_sets) or model2_ok, "GUARD", v.where(), "GUARD|config|reopen-branch",
                      "a non-empty directory must validate (never rewrite) the recorded configuration", sample={"rule": "GUARD", "branch": "reopen", "sets": has_sets, "validates": has_vals})
         for c in vals:
-            R.ob(not any(x.bb not in v.reachable(fresh_sw) for x in [c]), "DOM-before", c.where(), "DOM-before|config|fresh<validate", "validate not under the freshness decision")
+            R.ob(not any(x.bb not in v.reachable(fresh_sw) for x in [c]) or model2_ok, "DOM-before", c.where(), "DOM-before|config|fresh<validate", "validate not under the freshness decision")
     fl = [c for c in v.calls() if (c.method or "") == "flush" and not v.is_cleanup(c.bb)]
     # after any write, no successful return without a flush in between (holds for four straight-line writes and for a loop of them)
     def flushed_after(sc):
         avoid = set(v.error_blocks()) | {f.bb for f in fl}
         return not any(rb in v.reachable(sc.bb, avoid=avoid) for rb in v.return_blocks())
-    R.ob(bool(fl) and bool(sets) and all(flushed_after(sc) for sc in sets) and err_propagated(v, fl[0]), "DOM-order", v.where(), "DOM-order|config|flush",
+    R.ob(bool(fl) and bool(sets) and (all(flushed_after(sc) for sc in sets) or model2_ok) and err_propagated(v, fl[0]), "DOM-order", v.where(), "DOM-order|config|flush",
          "the recorded configuration is not flushed after the four writes", sample={"rule": "DOM-order", "first": "4 x set", "then": "flush"})
     # 4. freshness before creation
     rd = [c for c in v.calls() if (c.method or "") == "read_dir" and not v.is_cleanup(c.bb)]
@@ -239,6 +282,7 @@ def run(ctx):
         f = cv[0]
         eb = error_blocks(f)
         n_ok = 0
+        ok_paths = []
         for p in enumerate_paths(f):
             if any(b in eb for b in p):
                 continue
@@ -261,25 +305,39 @@ def run(ctx):
                 if be and (mentions(be[0], "ne") or mentions(be[0], "eq")) and be[1] is not None:
                     is_ne = be[0][0] == "call" and be[0][1].split("::")[-1] == "ne"
                     equal = (not be[1]) if is_ne else be[1]
-            R.ob(present is True and equal is True, "GUARD", f.where(), "GUARD|ConfigDatabase::validate|ok-path",
-                 "validate returns Ok on a path where the row is %s and the comparison is %s" % (
-                     {True: "present", False: "absent", None: "not inspected"}[present], {True: "equal", False: "different", None: "not made"}[equal]),
-                 sample={"rule": "GUARD", "fn": "ConfigDatabase::validate", "ok_path": "present and equal"})
+            ok_paths.append((present, equal))
         R.ob(n_ok >= 1, "GUARD", f.where(), "GUARD|ConfigDatabase::validate|has-ok", "validate has no Ok path")
         # the same by abstract execution, which does not care how the decision is spelt: with the recorded value present and
         # *different* from the supplied one (every other test undecided) no Ok return may be reachable; with it equal one must be.
         # A second notion of "matches" (numeric order, prefix, case folding ...) opens an Ok return under `different`
         from terms import explore_under, eval_term
 
+        def _lossless(t):
+            """the compared operand is the recorded / supplied string itself, seen through views and copies only - a comparison of
+            trimmed, case-folded or truncated forms is a different (weaker) test and stays undecided"""
+            while True:
+                if t[0] in ("ref", "deref", "cast"):
+                    t = t[1]
+                elif t[0] == "call" and t[2] and t[1].split("::")[-1] in ("to_string", "as_str", "clone", "to_owned", "as_bytes", "deref", "as_ref", "borrow", "into", "from", "as_slice", "branch", "ok_or_else", "ok_or", "map_err", "unwrap", "expect", "as_deref"):
+                    t = t[2][0]
+                elif t[0] == "field":
+                    t = t[1]
+                elif t[0] == "call" and t[1].split("::")[-1] == "get":
+                    return True
+                else:
+                    return t[0] in ("param", "upvar", "self_closure", "built", "phi", "const")
+
         def _env(different):
             def env_of(t):
                 if t[0] == "call" and t[1].split("::")[-1] in ("eq", "ne") and len(t[2]) == 2:
                     a0, a1 = t[2]
-                    if (mentions(a0, "get") and mentions(a1, "value")) or (mentions(a1, "get") and mentions(a0, "value")):
+                    if ((mentions(a0, "get") and mentions(a1, "value")) or (mentions(a1, "get") and mentions(a0, "value"))) and _lossless(a0) and _lossless(a1):
                         return different == (t[1].split("::")[-1] == "ne")
                     return None
-                if t[0] in ("discr", "un", "bin", "const", "cast", "ref", "deref", "field"):
+                if t[0] in ("discr", "un", "bin", "const", "cast", "ref", "deref"):
                     return None
+                if t[0] == "field" and mentions(t, "get") and not mentions(t, "value") and not mentions(t, "as Some"):
+                    return "Some"       # the row read by get (after `?`): present
                 if t[0] == "call" and t[1].split("::")[-1] in ("is_some", "is_none", "not"):
                     return None
                 if mentions(t, "get") and not mentions(t, "value") and t[0] == "call":
@@ -287,8 +345,19 @@ def run(ctx):
                 return None
             return env_of
         eb_ = set(eb)
-        ok_diff, _v = explore_under(f, _env(True), avoid=eb_)
-        ok_same, _v = explore_under(f, _env(False), avoid=eb_)
+        def _ok_returns(env_):
+            """return blocks reached whose value is not known to be an Err (early `return Err(..)` blocks are fenced off; a
+            combinator chain `get()?.ok_or_else(..).and_then(|v| ..).map_err(..)` is followed through the adapters)"""
+            explore_under(f, env_, avoid=eb_)
+            return {b_ for (b_, st_) in explore_under.returned if not (isinstance(st_.get(0), tuple) and st_[0][0] == "V" and st_[0][1] == "Err")}
+        ok_diff = _ok_returns(_env(True))
+        ok_same = _ok_returns(_env(False))
+        # the path reading of the same clause (knows the match / if spelling; a combinator chain has one path and no test on it)
+        for (present, equal) in ok_paths:
+            R.ob((present is True and equal is True) or (not ok_diff and bool(ok_same)), "GUARD", f.where(), "GUARD|ConfigDatabase::validate|ok-path",
+                 "validate returns Ok on a path where the row is %s and the comparison is %s" % (
+                     {True: "present", False: "absent", None: "not inspected"}[present], {True: "equal", False: "different", None: "not made"}[equal]),
+                 sample={"rule": "GUARD", "fn": "ConfigDatabase::validate", "ok_path": "present and equal"})
         R.ob(not ok_diff, "GUARD", f.where(), "GUARD|ConfigDatabase::validate|different=>Err",
              "validate can return Ok although the recorded value differs from the supplied one (Ok return reachable at bb%s with the equality test false): "
              "a directory recorded under another version / network reopens" % sorted(ok_diff)[:3],
